@@ -999,7 +999,11 @@ class Executor:
                     z = z3.And(tv, rv.z) if is_and else z3.Or(tv, rv.z)
                     yield bool_val(z), s1
                 else:
-                    yield v, s_stop
+                    if isinstance(v, (Unknown, BoundMethod)) and is_and:
+                        # `u and ...` stopping at an untracked falsy u: only its truth value (False) is known
+                        yield bool_val(z3.BoolVal(False)), s_stop
+                    else:
+                        yield v, s_stop
                     yield from rest
         yield from rec(0, st)
 
